@@ -308,7 +308,12 @@ class Mon:
             if js_only and before is not None and before["cluster_config.json"] != after["cluster_config.json"]:
                 self.bad("disk_differs_from_writer", "files do not hold the state the up-to-date writer wrote",
                          f"seq {seq}: {op['op']} by handle {op['h']} changed cluster_config.json")
-            if (not js_only and cfg != mem["cfg"]) or (mem.get("js") is not None and _norm_js(js) != _norm_js(mem["js"])):
+            # the job status on disk is compared for operations that write it; a config-only write
+            # (promote, demote, mark_*) says nothing about that file (15.3: after an operator takeover the
+            # former holder's in-flight job-status-only write may land behind the new holder's back)
+            writes_js = op["op"] in ("update", "complete_id", "prepare_resubmit")
+            if (not js_only and cfg != mem["cfg"]) or (writes_js and mem.get("js") is not None
+                                                      and _norm_js(js) != _norm_js(mem["js"])):
                 self.bad("disk_differs_from_writer", "files do not hold the state the up-to-date writer wrote",
                          f"seq {seq}: {op['op']} by handle {op['h']}")
 
